@@ -23,6 +23,7 @@ from __future__ import annotations
 import hashlib
 import importlib
 import json
+import os
 from pathlib import Path
 
 OPSETS = list(range(13, 24))
@@ -115,8 +116,17 @@ def read_registry(opsets=OPSETS):
             names_opt = [
                 (p.name, p.option == onnx.defs.OpSchema.FormalParameterOption.Optional) for p in ref.inputs
             ]
+            # the full parameter list (inputs then attributes) as `separate_input_attributes_from_arguments` walks it
+            the_sig = sig if (sig is not None and op.op_schema.since_version == ref.since_version) else ir_schemas.OpSignature.from_op_schema(ref)
+            params_full = []
+            for p in the_sig.params:
+                if p.is_param():
+                    params_full.append(("I", p.name, bool(p.variadic), bool(p.required)))
+                else:
+                    params_full.append(("A", p.name, bool(p.required), bool(p.has_default()), p.type.name))
             row = rows.get(key)
-            cur = dict(op=name, since=ref.since_version, opsets=[v], sig=sig_inputs, raw=raw_inputs, params=names_opt)
+            cur = dict(op=name, since=ref.since_version, opsets=[v], sig=sig_inputs, raw=raw_inputs, params=names_opt,
+                       params_full=params_full)
             if row is None:
                 rows[key] = cur
             else:
@@ -258,23 +268,92 @@ def write_if_changed(path: Path, text: str) -> bool:
     return True
 
 
-def regenerate(opsets=OPSETS):
+def table_texts(rows, shapes) -> dict[str, str]:
+    """File name -> content of every generated module."""
+    chunk_lists = chunks_of(shapes, NCHUNKS)
+    out = {"C12Schemas.lean": render(rows, shapes)}
+    for c, idxs in enumerate(chunk_lists):
+        out[f"C12Chunk{c}.lean"] = render_chunk(c, idxs)
+    out["C12SchemasOk.lean"] = render_all(len(chunk_lists), len(shapes), chunk_lists)
+    return out
+
+
+def differs_from_disk(texts: dict[str, str]) -> list[str]:
+    """Generated modules whose content differs from lean/OV/Gen (incl. stale chunk files)."""
+    diff = [n for n, t in texts.items() if not (GEN_DIR / n).exists() or (GEN_DIR / n).read_text() != t]
+    diff += [p.name for p in GEN_DIR.glob("C12Chunk*.lean") if p.name not in texts]
+    return diff
+
+
+def regenerate(opsets=OPSETS, write: bool = True):
     """Regenerate OV/Gen/C12Schemas.lean, C12Chunk<k>.lean, C12SchemasOk.lean.
 
-    Returns (rows, shapes, problems, changed).  Files are only rewritten when their content changes."""
+    Returns (rows, shapes, problems, changed).  Files are only rewritten when their content changes.
+    With `write=False` (a tree other than /repo is being checked: seeded change, scratch worktree) nothing under
+    /verif is touched; `changed` then tells whether the table read from that tree differs from lean/OV/Gen and the
+    caller checks it with `scratch_check`."""
     rows, problems = read_registry(opsets)
     shapes = shapes_of(rows)
-    chunk_lists = chunks_of(shapes, NCHUNKS)
-    changed = write_if_changed(GEN_DIR / "C12Schemas.lean", render(rows, shapes))
-    for c, idxs in enumerate(chunk_lists):
-        changed |= write_if_changed(GEN_DIR / f"C12Chunk{c}.lean", render_chunk(c, idxs))
+    texts = table_texts(rows, shapes)
+    if not write:
+        return rows, shapes, problems, bool(differs_from_disk(texts))
+    changed = False
+    for name, text in texts.items():
+        changed |= write_if_changed(GEN_DIR / name, text)
     for stale in GEN_DIR.glob("C12Chunk*.lean"):
-        k = int(stale.stem[len("C12Chunk"):])
-        if k >= len(chunk_lists):
+        if stale.name not in texts:
             stale.unlink()
             changed = True
-    changed |= write_if_changed(GEN_DIR / "C12SchemasOk.lean", render_all(len(chunk_lists), len(shapes), chunk_lists))
     return rows, shapes, problems, changed
+
+
+def scratch_check(rows, shapes, timeout: int = 1500):
+    """Kernel-check the table obligations for a table that must not be written under /verif: the generated modules go
+    to a temporary directory as `C12Scratch.*`, compiled with plain `lean -o` against the library's built .oleans
+    (chunks in parallel).  Returns (ok, log)."""
+    import concurrent.futures
+    import shutil
+    import subprocess
+    import tempfile
+
+    lean_dir = GEN_DIR.parent.parent
+    tmp = Path(tempfile.mkdtemp(prefix="c12gen_"))
+    try:
+        mod = tmp / "C12Scratch"
+        mod.mkdir()
+        texts = {n: t.replace("import OV.Gen.C12", "import C12Scratch.C12") for n, t in table_texts(rows, shapes).items()}
+        for n, t in texts.items():
+            (mod / n).write_text(t)
+        lp = subprocess.run(["lake", "env", "printenv", "LEAN_PATH"], cwd=lean_dir, capture_output=True, text=True, timeout=120)
+        if lp.returncode != 0:
+            return False, "cannot read LEAN_PATH: " + lp.stderr[-300:]
+        env = dict(os.environ, LEAN_PATH=lp.stdout.strip() + ":" + str(tmp))
+
+        def compile_one(name: str):
+            src = mod / name
+            p = subprocess.run(["lake", "env", "env", f"LEAN_PATH={env['LEAN_PATH']}", "lean", f"--root={tmp}", "-o", str(src.with_suffix(".olean")), str(src)],
+                               cwd=lean_dir, capture_output=True, text=True, timeout=timeout)
+            return name, p.returncode, (p.stdout + p.stderr)[-1500:]
+
+        logs = []
+        n, rc, out = compile_one("C12Schemas.lean")
+        logs.append(f"{n}: rc={rc} {out}")
+        if rc != 0:
+            return False, "\n".join(logs)
+        chunks = sorted(k for k in texts if k.startswith("C12Chunk"))
+        with concurrent.futures.ThreadPoolExecutor(max_workers=8) as ex:
+            for n, rc2, out in ex.map(compile_one, chunks):
+                logs.append(f"{n}: rc={rc2} {out}")
+                rc = rc or rc2
+        if rc != 0:
+            return False, "\n".join(logs)
+        n, rc, out = compile_one("C12SchemasOk.lean")
+        logs.append(f"{n}: rc={rc} {out}")
+        return rc == 0, "\n".join(logs)
+    except subprocess.TimeoutExpired:
+        return False, "timeout"
+    finally:
+        shutil.rmtree(tmp, ignore_errors=True)
 
 
 if __name__ == "__main__":
